@@ -1390,6 +1390,70 @@ func encodeSASLChallenge(b []byte) string {
 
 func decodeSASLResponse(s string) ([]byte, error) {"""))
 
+variant("counting-reader-layer",
+  ("conn.go", "		Reader: c.lineLimitReader,", "		Reader: &countingReader{r: c.lineLimitReader},"),
+  ("conn.go", "// Commands are dispatched to the appropriate handler functions.", """// countingReader counts the octets received on the connection.
+type countingReader struct {
+	r io.Reader
+	n int64
+}
+
+func (cr *countingReader) Read(b []byte) (int, error) {
+	n, err := cr.r.Read(b)
+	cr.n += int64(n)
+	return n, err
+}
+
+// Commands are dispatched to the appropriate handler functions."""))
+
+variant("init-layers-in-locals",
+  ("conn.go", """	rwc := struct {
+		io.Reader
+		io.Writer
+		io.Closer
+	}{
+		Reader: c.lineLimitReader,
+		Writer: c.conn,
+		Closer: c.conn,
+	}
+
+	if c.server.Debug != nil {
+		rwc = struct {
+			io.Reader
+			io.Writer
+			io.Closer
+		}{
+			io.TeeReader(rwc.Reader, c.server.Debug),
+			io.MultiWriter(rwc.Writer, c.server.Debug),
+			rwc.Closer,
+		}
+	}
+
+	c.text = textproto.NewConn(rwc)""", """	var r io.Reader = c.lineLimitReader
+	var w io.Writer = c.conn
+	if c.server.Debug != nil {
+		r = io.TeeReader(r, c.server.Debug)
+		w = io.MultiWriter(w, c.server.Debug)
+	}
+
+	c.text = textproto.NewConn(struct {
+		io.Reader
+		io.Writer
+		io.Closer
+	}{r, w, c.conn})"""))
+
+variant("lmtp-status-read-helper",
+  ("client.go", """			if _, _, err := d.c.readResponse(250); err != nil {
+				if smtpErr, ok := err.(*SMTPError); ok {""", """			if err := d.c.readRcptStatus(); err != nil {
+				if smtpErr, ok := err.(*SMTPError); ok {"""),
+  ("client.go", "type clientDebugWriter struct {", """// readRcptStatus reads the reply for one recipient of an LMTP transaction.
+func (c *Client) readRcptStatus() error {
+	_, _, err := c.readResponse(250)
+	return err
+}
+
+type clientDebugWriter struct {"""))
+
 if sys.argv[1:] == ['--export']:
     out = [{"id": "benign-" + n, "edits": [{"file": f, "old": o, "new": w} for f, o, w in V[n]]} for n in V]
     json.dump(out, open('/verif/liveness/benign.json', 'w'), indent=1)
